@@ -470,6 +470,14 @@ func bessel_i_log(v, x float64) float64 {
   if x == 0.0 {
     if v == 0.0 {
       return 0.0
+    } else
+    if v < 0.0 && math.Floor(v) != v {
+      // I_v(x) ~ (x/2)^v / Gamma(v+1) diverges for negative non-integer order
+      if int(math.Floor(v + 1.0)) & 1 != 0 {
+        return math.NaN()
+      } else {
+        return math.Inf(1)
+      }
     } else {
       return math.Inf(-1)
     }
